@@ -507,7 +507,7 @@ def fwer_minp(pvalues, distr, combine='fisher', plus1=True):
         next_pvalue = npc(pvalues_ord[jj:], distr_ord[:, jj:], combine=combine, plus1=plus1)
         pvalues_adjusted[jj] = np.max([next_pvalue, pvalues_adjusted[jj-1]])
     pvalues_adjusted[j-1] = np.max([pvalues_ord[j-1], pvalues_adjusted[j-2]])
-    pvalues_adjusted = pvalues_adjusted[np.argsort(pvalues)]
+    pvalues_adjusted = pvalues_adjusted[np.argsort(order)]
     return pvalues_adjusted
 
 
